@@ -18,6 +18,7 @@ Hypothesis HFunc : forall ops, P (Func ops).
 Hypothesis HNop : P Nop.
 Hypothesis HIf : forall c thn els, Forall P thn -> Forall P els -> P (If c thn els).
 Hypothesis HFor : forall id body, Forall P body -> P (For id body).
+Hypothesis HHost : forall k times ch, Forall P ch -> P (Host k times ch).
 Fixpoint node_ind' (n : node) : P n :=
   let fix go (l : list node) : Forall P l :=
     match l with [] => Forall_nil P | x :: r => Forall_cons x (node_ind' x) (go r) end in
@@ -32,31 +33,38 @@ Fixpoint node_ind' (n : node) : P n :=
   | Nop => HNop
   | If c thn els => HIf c thn els (go thn) (go els)
   | For id body => HFor id body (go body)
+  | Host k times ch => HHost k times ch (go ch)
   end.
 End NodeInd.
 
-Section SkelP.
+Lemma good_at {A} (P : A -> list nat -> Prop) (l : list A) path :
+  Forall (fun x => forall p, P x p) l -> Forall (fun x => P x path) l.
+Proof. intros H. eapply Forall_impl; [|exact H]. intros x Hx. apply Hx. Qed.
+
+(* the children of a hand-written component, rendered k times: only the number of times matters *)
+Lemma seq_d_const {A B} (g : bytes * option err) : forall (l1 : list A) (l2 : list B), length l1 = length l2 ->
+  seq_d A (fun _ => g) l1 = seq_d B (fun _ => g) l2.
+Proof.
+  induction l1 as [|a l1 IH]; intros [|b l2] L; cbn in L; try discriminate; [reflexivity|].
+  cbn [seq_d]. destruct g as [d [e|]]; [reflexivity|]. rewrite (IH l2) by lia. reflexivity.
+Qed.
+
+Lemma in_flat_map_const {A B} (L : list B) (l : list A) y : In y (flat_map (fun _ => L) l) -> In y L.
+Proof. induction l as [|a l IH]; cbn [flat_map]; [intros []|]. intros H. apply in_app_or in H as [H|H]; auto. Qed.
+
+(* ====================================================================================================== *)
+(* facts about one destination                                                                            *)
+(* ====================================================================================================== *)
+Section Local.
 Variable sink_st : Type.
 Variable sink : sink_st -> bytes -> nat * option err * sink_st.
 Variable cap : nat.
-Variable sw : bool.
-Variable flusher : bool.
-Variable esc : bytes -> bytes.
-Variable env : list nat -> N -> bytes * option N.
-Variable benv : list nat -> N -> bool.
-Variable senv : list nat -> N -> nat.
-Variable cnt : list nat -> N -> nat.
-Variable cancel : option N.
 Hypothesis sink_le : forall s p, fst (fst (sink s p)) <= length p.
 
 Notation worldT := (world sink_st).
 Notation rstateT := (rstate sink_st).
 Notation InvT := (Inv sink_st cap).
 Notation do_writeT := (do_write sink_st sink cap).
-Notation buffer_flushT := (buffer_flush sink_st sink flusher).
-Notation runT := (run sink_st sink cap sw flusher esc env benv senv cnt cancel).
-Notation run_opT := (run_op sink_st sink cap sw).
-Notation denoteT := (denote esc env benv senv cnt cancel).
 Notation seq_rT := (seq_r sink_st).
 
 Definition RInv (written : bytes) (st : rstateT) : Prop := InvT written (rb st) (rw st).
@@ -70,8 +78,8 @@ Proof.
   eapply write_inv; eassumption.
 Qed.
 
-Lemma buffer_flush_spec written st st' e :
-  RInv written st -> buffer_flushT st = (st', e) ->
+Lemma buffer_flush_spec flusher written st st' e :
+  RInv written st -> buffer_flush sink_st sink flusher st = (st', e) ->
   RInv written st' /\ e = berr (rb st') /\ (e = None -> buf (rb st') = []) /\
   (forall x, berr (rb st) = Some x -> berr (rb st') = Some x).
 Proof.
@@ -89,55 +97,64 @@ Proof.
     + intros x Hx. specialize (St x Hx). discriminate.
 Qed.
 
-(* what one statement of a sequence does, against what it denotes *)
-Definition Good {A} (f : A -> rstateT -> rstateT * option err) (g : A -> bytes * option err) (x : A) : Prop :=
+(* what one statement of a sequence does, against what it denotes; hs: the errors of the limited writers of
+   hand-written components inside it *)
+Definition Good {A} (f : A -> rstateT -> rstateT * option err) (g : A -> bytes * option err) (hs : A -> list err) (x : A) : Prop :=
   forall written st st' e, RInv written st -> berr (rb st) = None -> f x st = (st', e) ->
   exists done, RInv (written ++ done) st' /\
     match e with
     | None => g x = (done, None) /\ berr (rb st') = None
-    | Some y => prefix done (fst (g x)) /\ (g x = (done, Some y) \/ berr (rb st') = Some y)
+    | Some y => prefix done (fst (g x)) /\ (snd (g x) = Some y \/ berr (rb st') = Some y \/ In y (hs x))
     end.
 
-Lemma seq_good {A} (f : A -> rstateT -> rstateT * option err) (g : A -> bytes * option err) (l : list A) :
-  Forall (Good f g) l -> Good (seq_rT A f) (seq_d A g) l.
+Lemma good_weaken {A} (f : A -> rstateT -> rstateT * option err) g (hs1 hs2 : A -> list err) x :
+  (forall y, In y (hs1 x) -> In y (hs2 x)) -> Good f g hs1 x -> Good f g hs2 x.
 Proof.
-  induction 1 as [|x r Hx Hr IH]; intros written st st' e I Eb H; cbn [seq_r seq_d] in *.
+  intros W G written st st' e I Eb H. destruct (G _ _ _ _ I Eb H) as [d [I1 C]]. exists d. split; [exact I1|].
+  destruct e as [y|]; [|exact C]. destruct C as [P [D|[D|D]]]; (split; [exact P|]); auto.
+Qed.
+
+Lemma seq_good {A} (f : A -> rstateT -> rstateT * option err) (g : A -> bytes * option err) hs (l : list A) :
+  Forall (Good f g hs) l -> Good (seq_rT A f) (seq_d A g) (flat_map hs) l.
+Proof.
+  induction 1 as [|x r Hx Hr IH]; intros written st st' e I Eb H; cbn [seq_r seq_d flat_map] in *.
   - inversion H; subst. exists []. rewrite app_nil_r. split; [exact I|]. split; [reflexivity|exact Eb].
   - destruct (f x st) as [st1 e1] eqn:F.
     destruct (Hx _ _ _ _ I Eb F) as [d1 [I1 C1]].
     destruct e1 as [y|].
     + inversion H; subst. exists d1. split; [exact I1|]. destruct C1 as [P1 D1].
-      destruct (g x) as [dx ex] eqn:G. cbn [fst] in P1.
-      destruct D1 as [D1|D1].
-      * inversion D1; subst. split; [apply prefix_refl|]. left. reflexivity.
-      * split.
-        -- destruct ex; [exact P1|]. destruct (seq_d A g r). cbn [fst]. apply prefix_app_r. exact P1.
-        -- right. exact D1.
+      destruct (g x) as [dx ex] eqn:G. cbn [fst snd] in P1, D1.
+      split.
+      * destruct ex; [exact P1|]. destruct (seq_d A g r). cbn [fst]. apply prefix_app_r. exact P1.
+      * destruct D1 as [D1|[D1|D1]].
+        -- left. subst ex. reflexivity.
+        -- right. left. exact D1.
+        -- right. right. apply in_or_app. left. exact D1.
     + destruct C1 as [G1 E1]. rewrite G1.
       destruct (IH _ _ _ _ I1 E1 H) as [d2 [I2 C2]].
       exists (d1 ++ d2). rewrite app_assoc. split; [exact I2|].
       destruct (seq_d A g r) as [dr er] eqn:S.
       destruct e as [y|].
-      * destruct C2 as [P2 D2]. cbn [fst] in *. split; [apply prefix_app_l; exact P2|].
-        destruct D2 as [D2|D2]; [left; inversion D2; subst; reflexivity|right; exact D2].
+      * destruct C2 as [P2 D2]. cbn [fst snd] in *. split; [apply prefix_app_l; exact P2|].
+        destruct D2 as [D2|[D2|D2]]; [left; exact D2|right; left; exact D2|right; right; apply in_or_app; right; exact D2].
       * destruct C2 as [G2 E2]. inversion G2; subst. split; [reflexivity|exact E2].
 Qed.
 
-Lemma write_good direct (s : bytes) (d : bytes * option err) written st st' e :
+Lemma write_good direct (s : bytes) (d : bytes * option err) (hs : list err) written st st' e :
   d = (s, None) -> RInv written st -> do_writeT direct st s = (st', e) ->
   exists done, RInv (written ++ done) st' /\
     match e with
     | None => d = (done, None) /\ berr (rb st') = None
-    | Some y => prefix done (fst d) /\ (d = (done, Some y) \/ berr (rb st') = Some y)
+    | Some y => prefix done (fst d) /\ (snd d = Some y \/ berr (rb st') = Some y \/ In y hs)
     end.
 Proof.
   intros -> I H. destruct (do_write_spec _ _ _ _ _ _ I H) as [I1 E1].
   exists s. split; [exact I1|]. destruct e as [y|].
-  - split; [apply prefix_refl|right; symmetry; exact E1].
+  - split; [apply prefix_refl|right; left; symmetry; exact E1].
   - split; [reflexivity|symmetry; exact E1].
 Qed.
 
-Lemma run_op_good o : Good run_opT denote_op o.
+Lemma run_op_good sw o : Good (run_op sink_st sink cap sw) denote_op (fun _ => []) o.
 Proof.
   intros written st st' e I Eb H. destruct o as [p|s|n]; cbn [run_op denote_op] in *.
   - eapply write_good; eauto.
@@ -145,122 +162,333 @@ Proof.
   - inversion H; subst. exists []. rewrite app_nil_r. split; [exact I|]. split; [apply prefix_refl|left; reflexivity].
 Qed.
 
-Lemma good_at {A} (P : A -> list nat -> Prop) (l : list A) path :
-  Forall (fun x => forall p, P x p) l -> Forall (fun x => P x path) l.
-Proof. intros H. eapply Forall_impl; [|exact H]. intros x Hx. apply Hx. Qed.
+(* ---------- a block rendered on this destination through a pooled buffer of its own ---------- *)
+(* what such a render does to the destination, against what the block denotes *)
+Definition WGood (f : worldT -> option err * worldT) (g : bytes * option err) (hs : list err) : Prop :=
+  forall w r w', first_refusal (log w) = None -> f w = (r, w') ->
+  match r with
+  | None => recv w' = recv w ++ fst g /\ snd g = None /\ first_refusal (log w') = None
+  | Some y => prefix (recv w') (recv w ++ fst g) /\ (snd g = Some y \/ first_refusal (log w') = Some y \/ In y hs)
+  end.
 
-Lemma run_good : forall n path, Good (fun x => runT x path) (fun x => denoteT x path) n.
+Lemma closure_top_good flusher (body : rstateT -> rstateT * option err) (g : bytes * option err) (hs : list err) :
+  Good (fun _ : unit => body) (fun _ => g) (fun _ => hs) tt ->
+  WGood (closure_top sink_st sink flusher true body) g hs.
 Proof.
-  induction n as [s|id f l c|g body IHb|cs IHb|ch IHb|h e0|ops| |c thn els IHt IHe|id body IHb] using node_ind';
-    intros path written st st' e I Eb H; cbn beta in H |- *; cbn [run denote] in *.
-  - eapply write_good; eauto.
-  - destruct (env path id) as [v [x|]].
-    + inversion H; subst. exists []. rewrite app_nil_r. split; [exact I|]. split; [apply prefix_refl|left; reflexivity].
-    + eapply write_good; eauto.
-  - pose proof (good_at (fun x p => Good (fun y => runT y p) (fun y => denoteT y p) x) body path IHb) as Gb.
-    destruct g; [destruct cancel as [c|]|].
-    + inversion H; subst. exists []. rewrite app_nil_r. split; [exact I|]. split; [apply prefix_refl|left; reflexivity].
-    + eapply (seq_good _ _ body Gb); eauto.
-    + eapply (seq_good _ _ body Gb); eauto.
-  - pose proof (good_at (fun x p => Good (fun y => runT y p) (fun y => denoteT y p) x) cs path IHb) as Gb.
-    eapply (seq_good _ _ cs Gb); eauto.
-  - pose proof (good_at (fun x p => Good (fun y => runT y p) (fun y => denoteT y p) x) ch path IHb) as Gb.
-    destruct (seq_rT node (fun x => runT x path) ch st) as [st1 e1] eqn:S.
-    destruct (seq_good _ _ ch Gb _ _ _ _ I Eb S) as [d1 [I1 C1]].
+  intros G w r w' Q H. unfold closure_top in H.
+  destruct (body {| rb := bw_reset bw_fresh; rw := w |}) as [st1 e] eqn:B.
+  destruct (buffer_flush sink_st sink flusher st1) as [st2 fe] eqn:F. inversion H; subst r w'. clear H.
+  assert (I0 : RInv (recv w) {| rb := bw_reset bw_fresh; rw := w |}).
+  { unfold RInv, Inv. cbn [rb rw bw_reset bw_fresh buf berr]. split; [|split]; [|cbn; lia|symmetry; exact Q].
+    exists []. rewrite !app_nil_r. split; reflexivity. }
+  destruct (G _ _ _ _ I0 eq_refl B) as [done [I1 C1]].
+  destruct (buffer_flush_spec _ _ _ _ _ I1 F) as [I2 [E2 [B2 St]]].
+  pose proof (received_is_prefix _ _ _ _ _ I2) as PR.
+  assert (FR : berr (rb st2) = first_refusal (log (rw st2))) by (destruct I2 as [_ [_ X]]; exact X).
+  destruct e as [y|].
+  - destruct C1 as [P1 D1]. split.
+    + eapply prefix_trans; [exact PR|]. apply prefix_app_l. exact P1.
+    + destruct D1 as [D1|[D1|D1]]; [left; exact D1| |right; right; exact D1].
+      right. left. rewrite <- FR. apply St. exact D1.
+  - destruct C1 as [G1 E1]. rewrite G1. cbn [fst snd]. destruct fe as [y|].
+    + split; [exact PR|]. right. left. rewrite <- FR. symmetry. exact E2.
+    + split; [|split; [reflexivity|]].
+      * eapply clean_means_all; [exact I2|symmetry; exact E2|apply B2; reflexivity].
+      * rewrite <- FR. symmetry. exact E2.
+Qed.
+
+Lemma closure_times_good (f : worldT -> option err * worldT) (g : bytes * option err) (hs : list err) :
+  WGood f g hs -> forall k, WGood (closure_times f k) (seq_d nat (fun _ => g) (seq 0 k)) hs.
+Proof.
+  intros G k. induction k as [|k IH]; intros w r w' Q H; cbn [closure_times] in H.
+  - inversion H; subst. cbn [seq seq_d fst snd]. rewrite app_nil_r. repeat split; auto.
+  - assert (SQ : seq_d nat (fun _ => g) (seq 0 (S k)) =
+                 let '(d, e) := g in match e with Some _ => (d, e) | None => let '(d2, e2) := seq_d nat (fun _ => g) (seq 0 k) in (d ++ d2, e2) end).
+    { cbn [seq seq_d]. destruct g as [d [e|]]; [reflexivity|].
+      rewrite (seq_d_const (d, None) (seq 1 k) (seq 0 k)) by (rewrite !seq_length; reflexivity). reflexivity. }
+    rewrite SQ. clear SQ.
+    destruct (f w) as [e1 w1] eqn:F. pose proof (G _ _ _ Q F) as C1.
+    destruct g as [d ge] eqn:Eg. cbn [fst snd] in *.
     destruct e1 as [y|].
-    + inversion H; subst. exists d1. split; assumption.
-    + destruct C1 as [G1 E1].
-      destruct (buffer_flush_spec _ _ _ _ I1 H) as [I2 [E2 _]].
-      exists d1. split; [exact I2|]. rewrite G1. destruct e as [y|].
-      * split; [apply prefix_refl|right; symmetry; exact E2].
-      * split; [reflexivity|symmetry; exact E2].
-  - destruct e0 as [x|].
-    + inversion H; subst. exists []. rewrite app_nil_r. split; [exact I|]. split; [apply prefix_refl|left; reflexivity].
-    + eapply write_good; eauto.
-  - eapply (seq_good _ _ ops); eauto. apply Forall_forall. intros o _. apply run_op_good.
-  - inversion H; subst. exists []. rewrite app_nil_r. split; [exact I|]. split; [reflexivity|exact Eb].
-  - (* if / else, switch arm, conditional and boolean attribute: model and specification read the same oracle *)
-    pose proof (good_at (fun x p => Good (fun y => runT y p) (fun y => denoteT y p) x) thn path IHt) as Gt.
-    pose proof (good_at (fun x p => Good (fun y => runT y p) (fun y => denoteT y p) x) els path IHe) as Ge.
-    assert (T : test benv senv path c = holds benv senv path c) by (destruct c; reflexivity).
-    rewrite T in H. destruct (holds benv senv path c).
-    + eapply (seq_good _ _ thn Gt); eauto.
-    + eapply (seq_good _ _ els Ge); eauto.
-  - (* for: induction over the list of iterations, each iteration a statement list *)
-    eapply (seq_good (fun k => seq_rT node (fun x => runT x (k :: path)) body)
-                     (fun k => seq_d node (fun x => denoteT x (k :: path)) body) (seq 0 (cnt path id))); eauto.
-    apply Forall_forall. intros k _. apply seq_good.
-    apply (good_at (fun x p => Good (fun y => runT y p) (fun y => denoteT y p) x) body (k :: path) IHb).
+    + inversion H; subst r w'. destruct C1 as [P1 D1]. destruct ge as [z|]; cbn [fst snd].
+      * split; assumption.
+      * destruct (seq_d nat (fun _ => (d, None)) (seq 0 k)) as [d2 e2]. cbn [fst snd]. split.
+        -- rewrite app_assoc. apply prefix_app_r. exact P1.
+        -- destruct D1 as [D1|D1]; [discriminate|right; exact D1].
+    + destruct C1 as [R1 [S1 Q1]]. subst ge.
+      pose proof (IH _ _ _ Q1 H) as C2.
+      destruct (seq_d nat (fun _ => (d, None)) (seq 0 k)) as [d2 e2]. cbn [fst snd] in *.
+      rewrite R1 in C2. rewrite <- app_assoc in C2. exact C2.
 Qed.
+End Local.
 
-Lemma body_good body path : Good (seq_rT node (fun x => runT x path)) (seq_d node (fun x => denoteT x path)) body.
-Proof. apply seq_good. apply Forall_forall. intros n _. apply run_good. Qed.
+(* ====================================================================================================== *)
+(* any property of the destination that every call on it preserves is preserved by a whole render         *)
+(* ====================================================================================================== *)
+Section PreserveLocal.
+Variable sink_st : Type.
+Variable sink : sink_st -> bytes -> nat * option err * sink_st.
+Variable cap : nat.
 
-Notation render_topT := (render_top sink_st sink cap sw flusher esc env benv senv cnt cancel).
+Notation worldT := (world sink_st).
+Notation rstateT := (rstate sink_st).
 
-(* ---------- the whole of C10 for one render ---------- *)
-Theorem render_top_spec pool choice g body (w0 : worldT) res w' pool' :
-  recv w0 = [] -> log w0 = [] ->
-  render_topT true pool choice g body w0 = (res, w', pool') ->
-  spec_ok (fst (denoteT (Templ g body) [])) (snd (denoteT (Templ g body) [])) res (recv w') (log w').
+Variable P : worldT -> Prop.
+Hypothesis P_call : forall w direct p, P w -> P (snd (sink_call sink_st sink direct w p)).
+Hypothesis P_mark : forall w k, P w -> P {| sst := sst w; recv := recv w; log := log w; marks := marks w ++ [k] |}.
+Hypothesis P_spin : forall w, P w -> P {| sst := sst w; recv := recv w; log := log w ++ [LSpin]; marks := marks w |}.
+
+Lemma flush_pres b w b' w' : P w -> bw_flush sink_st sink b w = (b', w') -> P w'.
 Proof.
-  intros R0 L0 H. unfold render_top in H.
-  destruct (if g then cancel else None) as [c|] eqn:G.
-  - (* ctx.Err() != nil: nothing is acquired, nothing is written *)
-    destruct g; [|discriminate]. inversion H; subst res w' pool'. cbn [denote]. rewrite G, R0, L0. cbn [fst snd].
-    unfold spec_ok. cbn [first_refusal]. repeat split; try discriminate; auto using prefix_nil.
-  - assert (D : denoteT (Templ g body) [] = seq_d node (fun x => denoteT x []) body).
-    { cbn [denote]. destruct g; [rewrite G|]; reflexivity. }
-    rewrite D. clear D.
-    destruct (acquire pool choice) as [b0 pool1].
-    destruct (seq_rT node (fun x => runT x []) body {| rb := bw_reset b0; rw := w0 |}) as [st1 e] eqn:S.
-    destruct (buffer_flushT st1) as [st2 fe] eqn:F. inversion H; subst res w' pool'. clear H.
-    assert (I0 : RInv [] {| rb := bw_reset b0; rw := w0 |}).
-    { unfold RInv, Inv. cbn [rb rw bw_reset buf berr]. rewrite R0, L0. split; [|split]; cbn; auto; try lia.
-      exists []. split; reflexivity. }
-    destruct (body_good body [] _ _ _ _ I0 eq_refl S) as [done [I1 C1]]. cbn [app] in I1.
-    destruct (buffer_flush_spec _ _ _ _ I1 F) as [I2 [E2 [B2 St]]].
-    destruct (seq_d node (fun x => denoteT x []) body) as [d de] eqn:SD. cbn [fst snd].
-    pose proof (received_is_prefix _ _ _ _ _ I2) as PR.
-    assert (FR : berr (rb st2) = first_refusal (log (rw st2))) by (destruct I2 as [_ [_ X]]; exact X).
-    unfold spec_ok. destruct e as [y|].
-    + destruct C1 as [P1 D1]. cbn [fst] in P1. repeat split.
-      * eapply prefix_trans; eassumption.
-      * discriminate.
-      * discriminate.
-      * intros x Hx. rewrite <- FR in Hx. destruct D1 as [D1|D1].
-        -- inversion D1; subst. right. split; [reflexivity|discriminate].
-        -- left. rewrite (St _ D1) in Hx. congruence.
-      * intros Hn. rewrite <- FR in Hn. destruct D1 as [D1|D1].
-        -- inversion D1; subst. reflexivity.
-        -- rewrite (St _ D1) in Hn. discriminate.
-    + destruct C1 as [G1 E1]. inversion G1; subst d de. repeat split.
-      * exact PR.
-      * subst fe. eapply clean_means_all; [exact I2|exact H|apply B2; exact H].
-      * intros x Hx. left. rewrite <- FR in Hx. congruence.
-      * intros Hn. rewrite <- FR in Hn. congruence.
+  intros Pw H. unfold bw_flush in H.
+  destruct (berr b); [inversion H; subst; exact Pw|].
+  destruct (buf b) eqn:Bb; [inversion H; subst; exact Pw|]. rewrite <- Bb in H.
+  pose proof (P_call w false (buf b) Pw) as P1.
+  destruct (sink_call sink_st sink false w (buf b)) as [[n e] w1]. cbn [snd] in P1.
+  destruct (match e with Some x => Some x | None => if n <? length (buf b) then Some EShortWrite else None end);
+    inversion H; subst; exact P1.
 Qed.
 
-(* a cancelled context: the error is the context's, the destination and the pool are untouched *)
-Theorem cancelled_no_output pool choice body (w0 : worldT) c :
-  cancel = Some c ->
-  render_topT true pool choice true body w0 = (Some (ECtx c), w0, pool).
-Proof. intros C. unfold render_top. rewrite C. reflexivity. Qed.
-
-(* the result does not depend on what the pool holds or hands out *)
-Theorem render_top_pool_irrelevant pool choice g body (w0 : worldT) :
-  fst (render_topT true pool choice g body w0) = fst (render_topT true [] 0 g body w0).
+Lemma write_pres direct fuel : forall b w s b' w',
+  P w -> bw_write sink_st sink cap direct fuel b w s = (b', w') -> P w'.
 Proof.
-  unfold render_top. destruct (if g then cancel else None); [reflexivity|].
-  destruct (acquire pool choice) as [b0 p1]. destruct (acquire [] 0) as [b00 p0].
-  unfold bw_reset.
-  destruct (seq_rT node (fun x => runT x []) body {| rb := {| buf := []; berr := None |}; rw := w0 |}) as [st1 e].
-  destruct (buffer_flushT st1) as [st2 fe]. reflexivity.
+  induction fuel as [|f IH]; intros b w s b' w' Pw H; cbn [bw_write] in H.
+  - destruct (berr b); [inversion H; subst; exact Pw|].
+    destruct (length s <=? cap - length (buf b)); inversion H; subst; [exact Pw|apply P_spin; exact Pw].
+  - destruct (berr b); [inversion H; subst; exact Pw|].
+    destruct (length s <=? cap - length (buf b)); [inversion H; subst; exact Pw|].
+    destruct (direct && is_nil (buf b)).
+    + pose proof (P_call w true s Pw) as P1.
+      destruct (sink_call sink_st sink true w s) as [[n e] w1]. cbn [snd] in P1.
+      eapply IH; [exact P1|exact H].
+    + destruct (bw_flush sink_st sink {| buf := buf b ++ firstn (cap - length (buf b)) s; berr := None |} w) as [b1 w1] eqn:F.
+      eapply IH; [|exact H]. eapply flush_pres; [exact Pw|exact F].
 Qed.
 
-(* ---------- no spinning for a destination that honours io.Writer ---------- *)
+Definition RP (st : rstateT) : Prop := P (rw st).
+
+Lemma do_write_pres direct st s st' e : RP st -> do_write sink_st sink cap direct st s = (st', e) -> RP st'.
+Proof.
+  unfold RP, do_write. intros Pw H.
+  destruct (bw_write sink_st sink cap direct (length s + 2) (rb st) (rw st) s) as [b w] eqn:W.
+  inversion H; subst. cbn [rw]. eapply write_pres; eassumption.
+Qed.
+
+Lemma buffer_flush_pres flusher st st' e : RP st -> buffer_flush sink_st sink flusher st = (st', e) -> RP st'.
+Proof.
+  unfold RP, buffer_flush. intros Pw H.
+  destruct (bw_flush sink_st sink (rb st) (rw st)) as [b w] eqn:F.
+  pose proof (flush_pres _ _ _ _ Pw F) as P1.
+  destruct (berr b); inversion H; subst; cbn [rw]; [exact P1|].
+  destruct flusher; [apply P_mark; exact P1|exact P1].
+Qed.
+
+Lemma seq_pres {A} (f : A -> rstateT -> rstateT * option err) (l : list A) :
+  Forall (fun x => forall st st' e, RP st -> f x st = (st', e) -> RP st') l ->
+  forall st st' e, RP st -> seq_r sink_st A f l st = (st', e) -> RP st'.
+Proof.
+  induction 1 as [|x r Hx Hr IH]; intros st st' e Pw H; cbn [seq_r] in H.
+  - inversion H; subst. exact Pw.
+  - destruct (f x st) as [st1 e1] eqn:F. pose proof (Hx _ _ _ Pw F) as P1.
+    destruct e1; [inversion H; subst; exact P1|]. eapply IH; eassumption.
+Qed.
+
+Lemma closure_top_pres flusher own (body : rstateT -> rstateT * option err) :
+  (forall st st' e, RP st -> body st = (st', e) -> RP st') ->
+  forall w r w', P w -> closure_top sink_st sink flusher own body w = (r, w') -> P w'.
+Proof.
+  intros Hb w r w' Pw H. unfold closure_top in H.
+  destruct (body {| rb := bw_reset bw_fresh; rw := w |}) as [st1 e] eqn:B.
+  assert (P1 : RP st1) by (eapply Hb; [|exact B]; exact Pw).
+  destruct own.
+  - destruct (buffer_flush sink_st sink flusher st1) as [st2 fe] eqn:F. inversion H; subst.
+    exact (buffer_flush_pres _ _ _ _ P1 F).
+  - inversion H; subst. exact P1.
+Qed.
+
+Lemma closure_times_pres (f : worldT -> option err * worldT) :
+  (forall w r w', P w -> f w = (r, w') -> P w') ->
+  forall k w r w', P w -> closure_times f k w = (r, w') -> P w'.
+Proof.
+  intros Hf. induction k as [|k IH]; intros w r w' Pw H; cbn [closure_times] in H.
+  - inversion H; subst. exact Pw.
+  - destruct (f w) as [e1 w1] eqn:F. pose proof (Hf _ _ _ Pw F) as P1.
+    destruct e1; [inversion H; subst; exact P1|]. eapply IH; eassumption.
+Qed.
+End PreserveLocal.
+
+Section RunPres.
+Variable cap : nat.
+Variable esc : bytes -> bytes.
+Variable env : list nat -> N -> bytes * option N.
+Variable benv : list nat -> N -> bool.
+Variable senv : list nat -> N -> nat.
+Variable cnt : list nat -> N -> nat.
+Variable cancel : option N.
+
+(* the calls a forwarding writer of a hand-written component makes on the buffer behind it are ordinary writes *)
+Lemma fwd_step_pres (S : Type) (sink : S -> bytes -> nat * option err * S) (P : world S -> Prop) x :
+  (forall w direct p, P w -> P (snd (sink_call S sink direct w p))) ->
+  (forall w, P w -> P {| sst := sst w; recv := recv w; log := log w ++ [LSpin]; marks := marks w |}) ->
+  forall s p, P (rw (snd s)) -> P (rw (snd (snd (fwd_step S sink cap x s p)))).
+Proof.
+  intros Pc Ps s p Pw. unfold fwd_step. destruct (h_trip (fst s)); [exact Pw|].
+  set (q := match h_rem (fst s) with Some r => firstn r p | None => p end).
+  destruct (do_write S sink cap true (snd s) q) as [st' e] eqn:W.
+  assert (P1 : P (rw st')).
+  { eapply (do_write_pres S sink cap P Pc Ps); [|exact W]. exact Pw. }
+  destruct e; [exact P1|]. destruct (length q <? length p); exact P1.
+Qed.
+
+Definition PresAt (n : node) : Prop :=
+  forall (S : Type) (sink : S -> bytes -> nat * option err * S) (sw flusher : bool) (P : world S -> Prop),
+  (forall w direct p, P w -> P (snd (sink_call S sink direct w p))) ->
+  (forall w k, P w -> P {| sst := sst w; recv := recv w; log := log w; marks := marks w ++ [k] |}) ->
+  (forall w, P w -> P {| sst := sst w; recv := recv w; log := log w ++ [LSpin]; marks := marks w |}) ->
+  forall path st st' e, P (rw st) -> run S sink cap sw flusher esc env benv senv cnt cancel n path st = (st', e) -> P (rw st').
+
+Lemma pres_list (l : list node) : Forall PresAt l ->
+  forall (S : Type) (sink : S -> bytes -> nat * option err * S) (sw flusher : bool) (P : world S -> Prop),
+  (forall w direct p, P w -> P (snd (sink_call S sink direct w p))) ->
+  (forall w k, P w -> P {| sst := sst w; recv := recv w; log := log w; marks := marks w ++ [k] |}) ->
+  (forall w, P w -> P {| sst := sst w; recv := recv w; log := log w ++ [LSpin]; marks := marks w |}) ->
+  forall path st st' e, P (rw st) ->
+  seq_r S node (fun x => run S sink cap sw flusher esc env benv senv cnt cancel x path) l st = (st', e) -> P (rw st').
+Proof.
+  intros Hl S sink sw flusher P Pc Pm Ps path st st' e Pw H.
+  refine (seq_pres S P _ l _ st st' e Pw H).
+  eapply Forall_impl; [|exact Hl]. intros n Hn s1 s2 e1 P1 H1. exact (Hn S sink sw flusher P Pc Pm Ps path s1 s2 e1 P1 H1).
+Qed.
+
+Lemma run_pres : forall n, PresAt n.
+Proof.
+  induction n as [s|id f l c|g body IHb|cs IHb|ch IHb|h e0|ops| |c thn els IHt IHe|id body IHb|k times ch IHb] using node_ind';
+    intros S sink sw flusher P Pc Pm Ps path st st' e Pw H; cbn [run] in H.
+  - exact (do_write_pres S sink cap P Pc Ps _ _ _ _ _ Pw H).
+  - destruct (env path id) as [v [x|]]; [inversion H; subst; exact Pw|exact (do_write_pres S sink cap P Pc Ps _ _ _ _ _ Pw H)].
+  - destruct g.
+    + set (cc := cancel) in H at 1. clearbody cc. destruct cc; [inversion H; subst; exact Pw|].
+      exact (pres_list body IHb S sink sw flusher P Pc Pm Ps path st st' e Pw H).
+    + exact (pres_list body IHb S sink sw flusher P Pc Pm Ps path st st' e Pw H).
+  - exact (pres_list cs IHb S sink sw flusher P Pc Pm Ps path st st' e Pw H).
+  - destruct (seq_r S node (fun x => run S sink cap sw flusher esc env benv senv cnt cancel x path) ch st) as [st1 e1] eqn:Sq.
+    pose proof (pres_list ch IHb S sink sw flusher P Pc Pm Ps _ _ _ _ Pw Sq) as P1.
+    destruct e1; [inversion H; subst; exact P1|]. exact (buffer_flush_pres S sink P Pc Pm _ _ _ _ P1 H).
+  - destruct e0; [inversion H; subst; exact Pw|exact (do_write_pres S sink cap P Pc Ps _ _ _ _ _ Pw H)].
+  - refine (seq_pres S P _ ops _ st st' e Pw H). apply Forall_forall. intros o _ s1 s2 e1 P1 H1.
+    destruct o; cbn [run_op] in H1; [exact (do_write_pres S sink cap P Pc Ps _ _ _ _ _ P1 H1)|exact (do_write_pres S sink cap P Pc Ps _ _ _ _ _ P1 H1)|inversion H1; subst; exact P1].
+  - inversion H; subst. exact Pw.
+  - destruct (test benv senv path c).
+    + exact (pres_list thn IHt S sink sw flusher P Pc Pm Ps path st st' e Pw H).
+    + exact (pres_list els IHe S sink sw flusher P Pc Pm Ps path st st' e Pw H).
+  - refine (seq_pres S P _ (seq 0 (cnt path id)) _ st st' e Pw H).
+    apply Forall_forall. intros j _ s1 s2 e1 P1 H1. exact (pres_list body IHb S sink sw flusher P Pc Pm Ps (j :: path) s1 s2 e1 P1 H1).
+  - destruct k as [|limit x ownf|].
+    + refine (seq_pres S P _ (seq 0 times) _ st st' e Pw H).
+      apply Forall_forall. intros j _ s1 s2 e1 P1 H1. exact (pres_list ch IHb S sink sw flusher P Pc Pm Ps path s1 s2 e1 P1 H1).
+    + unfold host_fwd in H.
+      match type of H with (let '(_, _) := closure_times ?f ?t ?w0 in _) = _ => destruct (closure_times f t w0) as [r w'] eqn:CT end.
+      inversion H; subst st' e. clear H.
+      set (P' := fun w' : world (hstate * rstate S) => P (rw (snd (sst w')))).
+      assert (Pc' : forall w direct p, P' w -> P' (snd (sink_call _ (fwd_step S sink cap x) direct w p))).
+      { intros w direct p Hw. unfold P', sink_call in *.
+        pose proof (fwd_step_pres S sink P x Pc Ps (sst w) p Hw) as X.
+        destruct (fwd_step S sink cap x (sst w) p) as [[n0 e0] s']. cbn [snd sst] in *. exact X. }
+      assert (Pm' : forall w j, P' w -> P' {| sst := sst w; recv := recv w; log := log w; marks := marks w ++ [j] |}) by (intros w j Hw; exact Hw).
+      assert (Ps' : forall w, P' w -> P' {| sst := sst w; recv := recv w; log := log w ++ [LSpin]; marks := marks w |}) by (intros w Hw; exact Hw).
+      refine (closure_times_pres _ P' _ _ times _ r w' _ CT).
+      * intros w r1 w1 Hw H1. refine (closure_top_pres _ (fwd_step S sink cap x) P' Pc' Pm' _ _ _ _ w r1 w1 Hw H1).
+        intros s1 s2 e1 Q1 H2. exact (pres_list ch IHb _ (fwd_step S sink cap x) false false P' Pc' Pm' Ps' path s1 s2 e1 Q1 H2).
+      * exact Pw.
+    + unfold host_capture in H.
+      match type of H with (let '(_, _) := closure_times ?f ?t ?w0 in _) = _ => destruct (closure_times f t w0) as [r w'] eqn:CT end.
+      destruct r; [inversion H; subst; exact Pw|]. exact (do_write_pres S sink cap P Pc Ps _ _ _ _ _ Pw H).
+Qed.
+
+Theorem render_top_pres (S : Type) (sink : S -> bytes -> nat * option err * S) (sw flusher : bool) (P : world S -> Prop) :
+  (forall w direct p, P w -> P (snd (sink_call S sink direct w p))) ->
+  (forall w k, P w -> P {| sst := sst w; recv := recv w; log := log w; marks := marks w ++ [k] |}) ->
+  (forall w, P w -> P {| sst := sst w; recv := recv w; log := log w ++ [LSpin]; marks := marks w |}) ->
+  forall reset pool choice g body (w0 : world S) res w' pool',
+  P w0 -> render_top S sink cap sw flusher esc env benv senv cnt cancel reset pool choice g body w0 = (res, w', pool') -> P w'.
+Proof.
+  intros Pc Pm Ps reset pool choice g body w0 res w' pool' Pw H. unfold render_top in H. destruct (if g then cancel else None).
+  - inversion H; subst. exact Pw.
+  - destruct (acquire pool choice) as [b0 pool1].
+    destruct (seq_r S node (fun x => run S sink cap sw flusher esc env benv senv cnt cancel x []) body {| rb := if reset then bw_reset b0 else b0; rw := w0 |}) as [st1 e] eqn:Sq.
+    destruct (buffer_flush S sink flusher st1) as [st2 fe] eqn:F. inversion H; subst.
+    assert (P1 : P (rw st1)).
+    { refine (pres_list body _ S sink sw flusher P Pc Pm Ps [] _ st1 e _ Sq); [|exact Pw]. apply Forall_forall. intros n _. apply run_pres. }
+    exact (buffer_flush_pres S sink P Pc Pm _ _ _ _ P1 F).
+Qed.
+End RunPres.
+
+(* ====================================================================================================== *)
+(* the forwarding writer of a hand-written component is itself a well-behaved io.Writer                   *)
+(* ====================================================================================================== *)
+Section FwdWriter.
+Variable sink_st : Type.
+Variable sink : sink_st -> bytes -> nat * option err * sink_st.
+Variable cap : nat.
+
+(* Buffer.Write reports the number of bytes it consumed: a prefix t of what it was offered, all of it unless it
+   reports an error; t is now behind the buffer or in it *)
+Lemma do_write_count direct (st : rstate sink_st) q st' e : do_write sink_st sink cap direct st q = (st', e) ->
+  exists t, length (recv (rw st')) + length (buf (rb st')) - (length (recv (rw st)) + length (buf (rb st))) = length t /\
+            prefix t q /\ (e = None -> t = q) /\
+            recv (rw st') ++ buf (rb st') = (recv (rw st) ++ buf (rb st)) ++ t.
+Proof.
+  unfold do_write. intros H.
+  destruct (bw_write sink_st sink cap direct (length q + 2) (rb st) (rw st) q) as [b w] eqn:W.
+  inversion H; subst st' e. cbn [rb rw].
+  destruct (write_conserve _ _ _ _ _ _ _ _ _ _ W) as [t [E [Pt Ft]]].
+  exists t. split; [|split; [exact Pt|split; [exact Ft|]]].
+  - assert (L : length (recv w) + length (buf b) = length (recv (rw st)) + length (buf (rb st)) + length t).
+    { rewrite <- !app_length, E, !app_length. lia. }
+    lia.
+  - rewrite E, app_assoc. reflexivity.
+Qed.
+
+Lemma fwd_le x : forall s p, fst (fst (fwd_step sink_st sink cap x s p)) <= length p.
+Proof.
+  intros s p. unfold fwd_step. destruct (h_trip (fst s)); [cbn; lia|].
+  set (q := match h_rem (fst s) with Some r => firstn r p | None => p end).
+  assert (Lq : length q <= length p) by (unfold q; destruct (h_rem (fst s)); [rewrite firstn_length; lia|lia]).
+  destruct (do_write sink_st sink cap true (snd s) q) as [st' e] eqn:W.
+  destruct (do_write_count _ _ _ _ _ W) as [t [-> [Pt _]]].
+  apply prefix_length in Pt.
+  destruct e; [cbn [fst]; lia|]. destruct (length q <? length p); cbn [fst]; lia.
+Qed.
+
+Lemma fwd_progresses x : progresses (hstate * rstate sink_st) (fwd_step sink_st sink cap x).
+Proof.
+  intros s p n s' Hp H. unfold fwd_step in H. destruct (h_trip (fst s)); [discriminate|].
+  set (q := match h_rem (fst s) with Some r => firstn r p | None => p end) in *.
+  destruct (do_write sink_st sink cap true (snd s) q) as [st' e] eqn:W.
+  destruct (do_write_count _ _ _ _ _ W) as [t [Hn [_ [Ft _]]]].
+  destruct e; [discriminate|]. destruct (length q <? length p) eqn:Lt; [discriminate|].
+  inversion H; subst n s'. rewrite Hn, (Ft eq_refl). apply Nat.ltb_ge in Lt.
+  destruct p; [contradiction|cbn [length] in Lt; lia].
+Qed.
+End FwdWriter.
+
+Lemma buffer_sink_le : forall s p, fst (fst (buffer_sink s p)) <= length p.
+Proof. intros s p. cbn. lia. Qed.
+Lemma buffer_sink_progresses : progresses unit buffer_sink.
+Proof. intros s p n s' Hp H. inversion H; subst. destruct p; [contradiction|cbn; lia]. Qed.
+
+(* ====================================================================================================== *)
+(* no spinning for a destination that honours io.Writer                                                   *)
+(* ====================================================================================================== *)
+Section NoSpinLocal.
+Variable sink_st : Type.
+Variable sink : sink_st -> bytes -> nat * option err * sink_st.
+Variable cap : nat.
+Hypothesis sink_le : forall s p, fst (fst (sink s p)) <= length p.
 Hypothesis contract : progresses sink_st sink.
 Hypothesis cap_pos : 0 < cap.
+
+Notation rstateT := (rstate sink_st).
 
 Definition RNoSpin (st : rstateT) : Prop := no_spin sink_st (rw st) /\ length (buf (rb st)) <= cap.
 
@@ -290,7 +518,7 @@ Proof.
 Qed.
 
 Lemma do_write_no_spin direct st s st' e :
-  RNoSpin st -> do_writeT direct st s = (st', e) -> RNoSpin st'.
+  RNoSpin st -> do_write sink_st sink cap direct st s = (st', e) -> RNoSpin st'.
 Proof.
   unfold RNoSpin, do_write. intros [N Hl] H.
   destruct (bw_write sink_st sink cap direct (length s + 2) (rb st) (rw st) s) as [b w] eqn:W.
@@ -300,7 +528,7 @@ Proof.
   - eapply write_len; eassumption.
 Qed.
 
-Lemma buffer_flush_no_spin st st' e : RNoSpin st -> buffer_flushT st = (st', e) -> RNoSpin st'.
+Lemma buffer_flush_no_spin flusher st st' e : RNoSpin st -> buffer_flush sink_st sink flusher st = (st', e) -> RNoSpin st'.
 Proof.
   unfold RNoSpin, buffer_flush. intros [N Hl] H.
   destruct (bw_flush sink_st sink (rb st) (rw st)) as [b w] eqn:F.
@@ -317,7 +545,7 @@ Qed.
 
 Lemma seq_no_spin {A} (f : A -> rstateT -> rstateT * option err) (l : list A) :
   Forall (fun x => forall st st' e, RNoSpin st -> f x st = (st', e) -> RNoSpin st') l ->
-  forall st st' e, RNoSpin st -> seq_rT A f l st = (st', e) -> RNoSpin st'.
+  forall st st' e, RNoSpin st -> seq_r sink_st A f l st = (st', e) -> RNoSpin st'.
 Proof.
   induction 1 as [|x r Hx Hr IH]; intros st st' e N H; cbn [seq_r] in H.
   - inversion H; subst. exact N.
@@ -325,47 +553,525 @@ Proof.
     destruct e1; [inversion H; subst; exact N1|]. eapply IH; eassumption.
 Qed.
 
-Lemma run_no_spin : forall n path st st' e, RNoSpin st -> runT n path st = (st', e) -> RNoSpin st'.
+Lemma closure_top_no_spin flusher own (body : rstateT -> rstateT * option err) :
+  (forall st st' e, RNoSpin st -> body st = (st', e) -> RNoSpin st') ->
+  forall w r w', no_spin sink_st w -> closure_top sink_st sink flusher own body w = (r, w') -> no_spin sink_st w'.
 Proof.
-  induction n as [s|id f l c|g body IHb|cs IHb|ch IHb|h e0|ops| |c thn els IHt IHe|id body IHb] using node_ind';
-    intros path st st' e N H; cbn [run] in H.
-  - eapply do_write_no_spin; eassumption.
-  - destruct (env path id) as [v [x|]]; [inversion H; subst; exact N|eapply do_write_no_spin; eassumption].
-  - pose proof (good_at (fun x p => forall st st' e, RNoSpin st -> runT x p st = (st', e) -> RNoSpin st') body path IHb) as Gb.
-    destruct g; [destruct cancel|]; [inversion H; subst; exact N| |]; eapply (seq_no_spin _ body Gb); eassumption.
-  - pose proof (good_at (fun x p => forall st st' e, RNoSpin st -> runT x p st = (st', e) -> RNoSpin st') cs path IHb) as Gb.
-    eapply (seq_no_spin _ cs Gb); eassumption.
-  - pose proof (good_at (fun x p => forall st st' e, RNoSpin st -> runT x p st = (st', e) -> RNoSpin st') ch path IHb) as Gb.
-    destruct (seq_rT node (fun x => runT x path) ch st) as [st1 e1] eqn:S.
-    pose proof (seq_no_spin _ ch Gb _ _ _ N S) as N1.
-    destruct e1; [inversion H; subst; exact N1|]. eapply buffer_flush_no_spin; eassumption.
-  - destruct e0; [inversion H; subst; exact N|eapply do_write_no_spin; eassumption].
-  - eapply (seq_no_spin _ ops); [|exact N|exact H]. apply Forall_forall. intros o _ s1 s2 e1 N1 H1.
-    destruct o; cbn [run_op] in H1; [eapply do_write_no_spin; eassumption|eapply do_write_no_spin; eassumption|inversion H1; subst; exact N1].
-  - inversion H; subst. exact N.
-  - pose proof (good_at (fun x p => forall st st' e, RNoSpin st -> runT x p st = (st', e) -> RNoSpin st') thn path IHt) as Gt.
-    pose proof (good_at (fun x p => forall st st' e, RNoSpin st -> runT x p st = (st', e) -> RNoSpin st') els path IHe) as Ge.
-    destruct (test benv senv path c); [eapply (seq_no_spin _ thn Gt)|eapply (seq_no_spin _ els Ge)]; eassumption.
-  - eapply (seq_no_spin (fun k => seq_rT node (fun x => runT x (k :: path)) body) (seq 0 (cnt path id))); [|exact N|exact H].
-    apply Forall_forall. intros k _ s1 s2 e1 N1 H1.
-    eapply (seq_no_spin _ body); [|exact N1|exact H1].
-    apply (good_at (fun x p => forall st st' e, RNoSpin st -> runT x p st = (st', e) -> RNoSpin st') body (k :: path) IHb).
+  intros Hb w r w' N H. unfold closure_top in H.
+  destruct (body {| rb := bw_reset bw_fresh; rw := w |}) as [st1 e] eqn:B.
+  assert (N1 : RNoSpin st1).
+  { eapply Hb; [|exact B]. split; cbn [rb rw bw_reset buf]; [exact N|cbn; lia]. }
+  destruct own.
+  - destruct (buffer_flush sink_st sink flusher st1) as [st2 fe] eqn:F. inversion H; subst.
+    exact (proj1 (buffer_flush_no_spin _ _ _ _ N1 F)).
+  - inversion H; subst. exact (proj1 N1).
 Qed.
 
-Theorem render_top_no_spin pool choice g body (w0 : worldT) res w' pool' :
-  log w0 = [] -> render_topT true pool choice g body w0 = (res, w', pool') -> ~ In LSpin (log w').
+Lemma closure_times_no_spin (f : world sink_st -> option err * world sink_st) :
+  (forall w r w', no_spin sink_st w -> f w = (r, w') -> no_spin sink_st w') ->
+  forall k w r w', no_spin sink_st w -> closure_times f k w = (r, w') -> no_spin sink_st w'.
 Proof.
-  intros L0 H.
+  intros Hf. induction k as [|k IH]; intros w r w' N H; cbn [closure_times] in H.
+  - inversion H; subst. exact N.
+  - destruct (f w) as [e1 w1] eqn:F. pose proof (Hf _ _ _ N F) as N1.
+    destruct e1; [inversion H; subst; exact N1|]. eapply IH; eassumption.
+Qed.
+End NoSpinLocal.
+
+Section RunNoSpin.
+Variable cap : nat.
+Variable esc : bytes -> bytes.
+Variable env : list nat -> N -> bytes * option N.
+Variable benv : list nat -> N -> bool.
+Variable senv : list nat -> N -> nat.
+Variable cnt : list nat -> N -> nat.
+Variable cancel : option N.
+Hypothesis cap_pos : 0 < cap.
+
+Definition NoSpinAt (n : node) : Prop :=
+  forall (S : Type) (sink : S -> bytes -> nat * option err * S) (sw flusher : bool),
+  (forall s p, fst (fst (sink s p)) <= length p) -> progresses S sink ->
+  forall path st st' e, RNoSpin S cap st -> run S sink cap sw flusher esc env benv senv cnt cancel n path st = (st', e) -> RNoSpin S cap st'.
+
+Lemma no_spin_list (l : list node) : Forall NoSpinAt l ->
+  forall (S : Type) (sink : S -> bytes -> nat * option err * S) (sw flusher : bool),
+  (forall s p, fst (fst (sink s p)) <= length p) -> progresses S sink ->
+  forall path st st' e, RNoSpin S cap st ->
+  seq_r S node (fun x => run S sink cap sw flusher esc env benv senv cnt cancel x path) l st = (st', e) -> RNoSpin S cap st'.
+Proof.
+  intros Hl S sink sw flusher Le Pr path st st' e N H.
+  refine (seq_no_spin S cap _ l _ st st' e N H).
+  eapply Forall_impl; [|exact Hl]. intros n Hn s1 s2 e1 N1 H1. exact (Hn S sink sw flusher Le Pr path s1 s2 e1 N1 H1).
+Qed.
+
+Lemma run_no_spin : forall n, NoSpinAt n.
+Proof.
+  induction n as [s|id f l c|g body IHb|cs IHb|ch IHb|h e0|ops| |c thn els IHt IHe|id body IHb|k times ch IHb] using node_ind';
+    intros S sink sw flusher Le Pr path st st' e N H; cbn [run] in H.
+  - exact (do_write_no_spin S sink cap Le Pr cap_pos _ _ _ _ _ N H).
+  - destruct (env path id) as [v [x|]]; [inversion H; subst; exact N|exact (do_write_no_spin S sink cap Le Pr cap_pos _ _ _ _ _ N H)].
+  - destruct g.
+    + set (cc := cancel) in H at 1. clearbody cc. destruct cc; [inversion H; subst; exact N|].
+      exact (no_spin_list body IHb S sink sw flusher Le Pr path st st' e N H).
+    + exact (no_spin_list body IHb S sink sw flusher Le Pr path st st' e N H).
+  - exact (no_spin_list cs IHb S sink sw flusher Le Pr path st st' e N H).
+  - destruct (seq_r S node (fun x => run S sink cap sw flusher esc env benv senv cnt cancel x path) ch st) as [st1 e1] eqn:Sq.
+    pose proof (no_spin_list ch IHb S sink sw flusher Le Pr _ _ _ _ N Sq) as N1.
+    destruct e1; [inversion H; subst; exact N1|]. exact (buffer_flush_no_spin S sink cap cap_pos _ _ _ _ N1 H).
+  - destruct e0; [inversion H; subst; exact N|exact (do_write_no_spin S sink cap Le Pr cap_pos _ _ _ _ _ N H)].
+  - refine (seq_no_spin S cap _ ops _ st st' e N H). apply Forall_forall. intros o _ s1 s2 e1 N1 H1.
+    destruct o; cbn [run_op] in H1; [exact (do_write_no_spin S sink cap Le Pr cap_pos _ _ _ _ _ N1 H1)|exact (do_write_no_spin S sink cap Le Pr cap_pos _ _ _ _ _ N1 H1)|inversion H1; subst; exact N1].
+  - inversion H; subst. exact N.
+  - destruct (test benv senv path c).
+    + exact (no_spin_list thn IHt S sink sw flusher Le Pr path st st' e N H).
+    + exact (no_spin_list els IHe S sink sw flusher Le Pr path st st' e N H).
+  - refine (seq_no_spin S cap _ (seq 0 (cnt path id)) _ st st' e N H).
+    apply Forall_forall. intros j _ s1 s2 e1 N1 H1. exact (no_spin_list body IHb S sink sw flusher Le Pr (j :: path) s1 s2 e1 N1 H1).
+  - destruct k as [|limit x ownf|].
+    + refine (seq_no_spin S cap _ (seq 0 times) _ st st' e N H).
+      apply Forall_forall. intros j _ s1 s2 e1 N1 H1. exact (no_spin_list ch IHb S sink sw flusher Le Pr path s1 s2 e1 N1 H1).
+    + (* the enclosing render's buffer and destination are only reached through ordinary writes *)
+      unfold host_fwd in H.
+      match type of H with (let '(_, _) := closure_times ?f ?t ?w0 in _) = _ => destruct (closure_times f t w0) as [r w'] eqn:CT end.
+      inversion H; subst st' e. clear H.
+      set (P' := fun w' : world (hstate * rstate S) => RNoSpin S cap (snd (sst w'))).
+      assert (Pc' : forall w direct p, P' w -> P' (snd (sink_call _ (fwd_step S sink cap x) direct w p))).
+      { intros w direct p Hw. unfold P', sink_call in *.
+        assert (X : RNoSpin S cap (snd (snd (fwd_step S sink cap x (sst w) p)))).
+        { unfold fwd_step. destruct (h_trip (fst (sst w))); [exact Hw|].
+          set (q := match h_rem (fst (sst w)) with Some r0 => firstn r0 p | None => p end).
+          destruct (do_write S sink cap true (snd (sst w)) q) as [st1 e1] eqn:W.
+          pose proof (do_write_no_spin S sink cap Le Pr cap_pos _ _ _ _ _ Hw W) as N1.
+          destruct e1; [exact N1|]. destruct (length q <? length p); exact N1. }
+        destruct (fwd_step S sink cap x (sst w) p) as [[n0 e0] s']. cbn [snd sst] in *. exact X. }
+      assert (Pm' : forall w j, P' w -> P' {| sst := sst w; recv := recv w; log := log w; marks := marks w ++ [j] |}) by (intros w j Hw; exact Hw).
+      assert (Ps' : forall w, P' w -> P' {| sst := sst w; recv := recv w; log := log w ++ [LSpin]; marks := marks w |}) by (intros w Hw; exact Hw).
+      refine (closure_times_pres _ P' _ _ times _ r w' _ CT).
+      * intros w r1 w1 Hw H1. refine (closure_top_pres _ (fwd_step S sink cap x) P' Pc' Pm' _ _ _ _ w r1 w1 Hw H1).
+        intros s1 s2 e1 Q1 H2.
+        refine (pres_list cap esc env benv senv cnt cancel ch _ _ (fwd_step S sink cap x) false false P' Pc' Pm' Ps' path s1 s2 e1 Q1 H2).
+        apply Forall_forall. intros n _. apply run_pres.
+      * exact N.
+    + unfold host_capture in H.
+      match type of H with (let '(_, _) := closure_times ?f ?t ?w0 in _) = _ => destruct (closure_times f t w0) as [r w'] eqn:CT end.
+      destruct r; [inversion H; subst; exact N|]. exact (do_write_no_spin S sink cap Le Pr cap_pos _ _ _ _ _ N H).
+Qed.
+
+(* a block rendered through a pooled buffer of its own never spins either *)
+Lemma block_no_spin (S : Type) (sink : S -> bytes -> nat * option err * S) (sw flusher own : bool) ch path times :
+  (forall s p, fst (fst (sink s p)) <= length p) -> progresses S sink ->
+  forall w r w', no_spin S w ->
+  closure_times (closure_top S sink flusher own
+                   (seq_r S node (fun c => run S sink cap sw flusher esc env benv senv cnt cancel c path) ch)) times w = (r, w') ->
+  no_spin S w'.
+Proof.
+  intros Le Pr w r w' N H.
+  refine (closure_times_no_spin S _ _ times w r w' N H).
+  intros w1 r1 w2 N1 H1. refine (closure_top_no_spin S sink cap cap_pos flusher own _ _ w1 r1 w2 N1 H1).
+  intros s1 s2 e1 Q1 H2. refine (no_spin_list ch _ S sink sw flusher Le Pr path s1 s2 e1 Q1 H2).
+  apply Forall_forall. intros n _. apply run_no_spin.
+Qed.
+
+Theorem render_top_no_spin (S : Type) (sink : S -> bytes -> nat * option err * S) (sw flusher : bool) :
+  (forall s p, fst (fst (sink s p)) <= length p) -> progresses S sink ->
+  forall pool choice g body (w0 : world S) res w' pool',
+  log w0 = [] -> render_top S sink cap sw flusher esc env benv senv cnt cancel true pool choice g body w0 = (res, w', pool') -> ~ In LSpin (log w').
+Proof.
+  intros Le Pr pool choice g body w0 res w' pool' L0 H.
   unfold render_top in H. destruct (if g then cancel else None).
   - inversion H; subst. rewrite L0. intros [].
   - destruct (acquire pool choice) as [b0 pool1].
-    destruct (seq_rT node (fun x => runT x []) body {| rb := bw_reset b0; rw := w0 |}) as [st1 e] eqn:S.
-    destruct (buffer_flushT st1) as [st2 fe] eqn:F. inversion H; subst.
-    assert (N0 : RNoSpin {| rb := bw_reset b0; rw := w0 |}).
+    destruct (seq_r S node (fun x => run S sink cap sw flusher esc env benv senv cnt cancel x []) body {| rb := bw_reset b0; rw := w0 |}) as [st1 e] eqn:Sq.
+    destruct (buffer_flush S sink flusher st1) as [st2 fe] eqn:F. inversion H; subst.
+    assert (N0 : RNoSpin S cap {| rb := bw_reset b0; rw := w0 |}).
     { split; cbn [rb rw bw_reset buf]; [unfold no_spin; rewrite L0; intros []|cbn; lia]. }
-    assert (N1 : RNoSpin st1).
-    { eapply (seq_no_spin _ body); [|exact N0|exact S]. apply Forall_forall. intros n _ s1 s2 e1. apply run_no_spin. }
-    destruct (buffer_flush_no_spin _ _ _ N1 F) as [N2 _]. exact N2.
+    assert (N1 : RNoSpin S cap st1).
+    { refine (no_spin_list body _ S sink sw flusher Le Pr [] _ st1 e N0 Sq). apply Forall_forall. intros n _. apply run_no_spin. }
+    destruct (buffer_flush_no_spin S sink cap cap_pos _ _ _ _ N1 F) as [N2 _]. exact N2.
+Qed.
+End RunNoSpin.
+
+(* ====================================================================================================== *)
+(* the link between what a block's own buffer was told by the forwarding writer of a hand-written          *)
+(* component and what that writer did to the enclosing render's buffer                                    *)
+(* ====================================================================================================== *)
+Section HostLink.
+Variable sink_st : Type.
+Variable sink : sink_st -> bytes -> nat * option err * sink_st.
+Variable cap : nat.
+Hypothesis sink_le : forall s p, fst (fst (sink s p)) <= length p.
+Variable x : N.
+Variable limit : option nat.
+Variable written : bytes.          (* what the enclosing render had written into its buffer when the component was called *)
+
+Notation hst := (hstate * rstate sink_st)%type.
+Notation fstep := (fwd_step sink_st sink cap x).
+
+Definition LinkH (w' : world hst) : Prop :=
+  RInv sink_st cap (written ++ recv w') (snd (sst w')) /\
+  (limit = None -> h_rem (fst (sst w')) = None) /\
+  (h_trip (fst (sst w')) = true -> limit <> None) /\
+  (no_spin hst w' ->
+   match first_refusal (log w') with
+   | None => berr (rb (snd (sst w'))) = None /\ h_trip (fst (sst w')) = false
+   | Some y => berr (rb (snd (sst w'))) = Some y \/ (y = EComp x /\ h_trip (fst (sst w')) = true /\ limit <> None)
+   end).
+
+Lemma no_spin_app_inv (w' : world hst) e0 :
+  ~ In LSpin (log w' ++ [e0]) -> no_spin hst w'.
+Proof. intros Ns Hin. apply Ns. apply in_or_app. left. exact Hin. Qed.
+
+Lemma link_call w' direct p : LinkH w' -> LinkH (snd (sink_call hst fstep direct w' p)).
+Proof.
+  intros [I [Lm [Tl Fr]]]. unfold sink_call, fwd_step.
+  destruct (h_trip (fst (sst w'))) eqn:Tr.
+  - (* the writer has failed already *)
+    cbn [snd fst]. unfold LinkH. cbn [sst recv log fst snd]. split; [|split; [exact Lm|split; [intros _; apply Tl; reflexivity|]]].
+    + cbn [firstn]. rewrite app_nil_r. exact I.
+    + intros Ns. specialize (Fr (no_spin_app_inv _ _ Ns)). rewrite first_refusal_app.
+      destruct (first_refusal (log w')) as [z|]; [|destruct Fr as [_ Fr]; congruence].
+      rewrite Tr. exact Fr.
+  - set (q := match h_rem (fst (sst w')) with Some r => firstn r p | None => p end).
+    assert (Pq : prefix q p).
+    { unfold q. destruct (h_rem (fst (sst w'))) as [r|]; [|apply prefix_refl].
+      exists (skipn r p). symmetry. apply firstn_skipn. }
+    destruct (do_write sink_st sink cap true (snd (sst w')) q) as [st' e] eqn:W.
+    destruct (do_write_spec _ _ _ sink_le _ _ _ _ _ _ I W) as [I1 E1].
+    destruct (do_write_count _ _ _ _ _ _ _ _ W) as [t [Hn [Pt [Ft Et]]]].
+    rewrite Hn.
+    assert (Ptp : prefix t p) by (eapply prefix_trans; eassumption).
+    assert (Ft' : firstn (length t) p = t) by (apply prefix_firstn; exact Ptp).
+    (* the enclosing buffer has consumed exactly t *)
+    assert (I2 : RInv sink_st cap (written ++ recv w' ++ t) st').
+    { unfold RInv in *. destruct I as [[rest [Hw Hr]] [Hl He]]. destruct I1 as [_ [Hl' He']].
+      assert (D : (exists z, berr (rb (snd (sst w'))) = Some z) \/ berr (rb (snd (sst w'))) = None)
+        by (destruct (berr (rb (snd (sst w')))); eauto).
+      destruct D as [[z Eb]|Eb].
+      - (* it had failed before: nothing happens *)
+        unfold do_write in W. rewrite (write_sticky _ sink cap true _ _ _ _ z Eb) in W. inversion W; subst st' e. cbn [rb rw] in *.
+        assert (t = []).
+        { apply (f_equal (@length byte)) in Et. rewrite !app_length in Et. destruct t; [reflexivity|cbn in Et; lia]. }
+        subst t. rewrite app_nil_r. split; [|split; assumption]. exists rest. split; [exact Hw|exact Hr].
+      - rewrite (Hr Eb), app_nil_r in Hw. split; [|split; assumption].
+        exists []. rewrite app_nil_r. split; [|reflexivity]. rewrite app_assoc, Hw, Et. reflexivity. }
+    assert (Lm' : limit = None -> match h_rem (fst (sst w')) with Some r => Some (r - length t) | None => None end = None).
+    { intros L. rewrite (Lm L). reflexivity. }
+    assert (St : forall z, berr (rb (snd (sst w'))) = Some z -> berr (rb st') = Some z).
+    { intros z Eb. unfold do_write in W. rewrite (write_sticky _ sink cap true _ _ _ _ z Eb) in W. inversion W; subst. exact Eb. }
+    destruct e as [y|].
+    + cbn [snd fst]. unfold LinkH. cbn [sst recv log fst snd h_rem h_trip]. rewrite Ft'.
+      split; [exact I2|split; [exact Lm'|split; [discriminate|]]].
+      intros Ns. specialize (Fr (no_spin_app_inv _ _ Ns)). rewrite first_refusal_app.
+      destruct (first_refusal (log w')) as [z|].
+      * destruct Fr as [Fr|[_ [Fr _]]]; [left; apply St; exact Fr|congruence].
+      * assert (R0 : refusal (LCall direct (length p) (length t) (Some y)) = Some y) by (destruct direct; reflexivity).
+        rewrite R0. left. symmetry. exact E1.
+    + destruct (length q <? length p) eqn:Lt.
+      * (* the call would go beyond the limit: the writer takes what fits and fails *)
+        assert (Ln : limit <> None).
+        { intros L. specialize (Lm L). unfold q in Lt. rewrite Lm in Lt. rewrite Nat.ltb_irrefl in Lt. discriminate. }
+        cbn [snd fst]. unfold LinkH. cbn [sst recv log fst snd h_rem h_trip]. rewrite Ft'.
+        split; [exact I2|split; [exact Lm'|split; [intros _; exact Ln|]]].
+        intros Ns. specialize (Fr (no_spin_app_inv _ _ Ns)). rewrite first_refusal_app.
+        destruct (first_refusal (log w')) as [z|].
+        -- destruct Fr as [Fr|[_ [Fr _]]]; [|congruence]. specialize (St z Fr). congruence.
+        -- assert (R0 : refusal (LCall direct (length p) (length t) (Some (EComp x))) = Some (EComp x)) by (destruct direct; reflexivity).
+           rewrite R0. right. split; [reflexivity|split; [reflexivity|exact Ln]].
+      * cbn [snd fst]. unfold LinkH. cbn [sst recv log fst snd h_rem h_trip]. rewrite Ft'.
+        split; [exact I2|split; [exact Lm'|split; [discriminate|]]].
+        intros Ns. specialize (Fr (no_spin_app_inv _ _ Ns)). rewrite first_refusal_app.
+        destruct (first_refusal (log w')) as [z|].
+        -- destruct Fr as [Fr|[_ [Fr _]]]; [|congruence]. specialize (St z Fr). congruence.
+        -- assert (Ln : length t = length p).
+           { rewrite (Ft eq_refl). apply Nat.ltb_ge in Lt. apply prefix_length in Pq. lia. }
+           assert (R0 : refusal (LCall direct (length p) (length t) None) = None).
+           { rewrite Ln. destruct direct; cbn [refusal]; [reflexivity|]. rewrite Nat.ltb_irrefl. reflexivity. }
+           rewrite R0. split; [symmetry; exact E1|reflexivity].
+Qed.
+
+Lemma link_mark w' k : LinkH w' -> LinkH {| sst := sst w'; recv := recv w'; log := log w'; marks := marks w' ++ [k] |}.
+Proof. intros L. exact L. Qed.
+
+Lemma link_spin w' : LinkH w' -> LinkH {| sst := sst w'; recv := recv w'; log := log w' ++ [LSpin]; marks := marks w' |}.
+Proof.
+  intros [I [Lm [Tl _]]]. unfold LinkH. cbn [sst recv log]. split; [exact I|split; [exact Lm|split; [exact Tl|]]].
+  intros Ns. exfalso. apply Ns. cbn [log]. apply in_or_app. right. left. reflexivity.
+Qed.
+End HostLink.
+
+(* a bytes.Buffer of the component's own never refuses *)
+Definition CapQ (w : world unit) : Prop := no_spin unit w -> first_refusal (log w) = None.
+Lemma capq_call w direct p : CapQ w -> CapQ (snd (sink_call unit buffer_sink direct w p)).
+Proof.
+  intros Q Ns. unfold sink_call, buffer_sink in *. cbn [snd log] in *.
+  rewrite first_refusal_app, Q; [|intros Hin; apply Ns; apply in_or_app; left; exact Hin].
+  destruct direct; cbn [refusal]; [reflexivity|]. rewrite Nat.ltb_irrefl. reflexivity.
+Qed.
+Lemma capq_spin w : CapQ w -> CapQ {| sst := sst w; recv := recv w; log := log w ++ [LSpin]; marks := marks w |}.
+Proof. intros _ Ns. exfalso. apply Ns. cbn [log]. apply in_or_app. right. left. reflexivity. Qed.
+
+(* ====================================================================================================== *)
+(* every statement does what it denotes, on every destination                                             *)
+(* ====================================================================================================== *)
+Section RunGood.
+Variable cap : nat.
+Variable esc : bytes -> bytes.
+Variable env : list nat -> N -> bytes * option N.
+Variable benv : list nat -> N -> bool.
+Variable senv : list nat -> N -> nat.
+Variable cnt : list nat -> N -> nat.
+Variable cancel : option N.
+Hypothesis cap_pos : 0 < cap.
+
+Notation denoteT := (denote esc env benv senv cnt cancel).
+
+Definition GoodAt (n : node) : Prop :=
+  forall (S : Type) (sink : S -> bytes -> nat * option err * S) (sw flusher : bool),
+  (forall s p, fst (fst (sink s p)) <= length p) ->
+  forall path,
+  Good S cap (fun x => run S sink cap sw flusher esc env benv senv cnt cancel x path) (fun x => denoteT x path) host_errs n.
+
+Lemma good_list (l : list node) : Forall GoodAt l ->
+  forall (S : Type) (sink : S -> bytes -> nat * option err * S) (sw flusher : bool),
+  (forall s p, fst (fst (sink s p)) <= length p) ->
+  forall path,
+  Good S cap (seq_r S node (fun x => run S sink cap sw flusher esc env benv senv cnt cancel x path))
+       (seq_d node (fun x => denoteT x path)) (flat_map host_errs) l.
+Proof.
+  intros Hl S sink sw flusher Le path. apply seq_good.
+  eapply Forall_impl; [|exact Hl]. intros n Hn. exact (Hn S sink sw flusher Le path).
+Qed.
+
+(* the whole block, as one statement *)
+Lemma block_good (ch : list node) : Forall GoodAt ch ->
+  forall (S : Type) (sink : S -> bytes -> nat * option err * S) (sw flusher : bool),
+  (forall s p, fst (fst (sink s p)) <= length p) ->
+  forall path times,
+  WGood S (closure_times (closure_top S sink flusher true
+                            (seq_r S node (fun c => run S sink cap sw flusher esc env benv senv cnt cancel c path) ch)) times)
+        (seq_d nat (fun _ => seq_d node (fun x => denoteT x path) ch) (seq 0 times)) (flat_map host_errs ch).
+Proof.
+  intros Hl S sink sw flusher Le path times.
+  apply closure_times_good. apply (closure_top_good S sink cap Le).
+  intros written st st' e I Eb H. exact (good_list ch Hl S sink sw flusher Le path written st st' e I Eb H).
+Qed.
+
+Lemma run_good : forall n, GoodAt n.
+Proof.
+  induction n as [s|id f l c|g body IHb|cs IHb|ch IHb|h e0|ops| |c thn els IHt IHe|id body IHb|k times ch IHb] using node_ind';
+    intros S sink sw flusher Le path written st st' e I Eb H; cbn beta in H |- *; cbn [run denote host_errs] in *.
+  - eapply write_good; eauto.
+  - destruct (env path id) as [v [x|]].
+    + inversion H; subst. exists []. rewrite app_nil_r. split; [exact I|]. split; [apply prefix_refl|left; reflexivity].
+    + eapply write_good; eauto.
+  - pose proof (good_list body IHb S sink sw flusher Le path) as Gb. clear IHb.
+    destruct g; [destruct cancel as [c|]|].
+    + inversion H; subst. exists []. rewrite app_nil_r. split; [exact I|]. split; [apply prefix_refl|left; reflexivity].
+    + exact (Gb written st st' e I Eb H).
+    + exact (Gb written st st' e I Eb H).
+  - exact (good_list cs IHb S sink sw flusher Le path written st st' e I Eb H).
+  - pose proof (good_list ch IHb S sink sw flusher Le path) as Gb.
+    destruct (seq_r S node (fun x => run S sink cap sw flusher esc env benv senv cnt cancel x path) ch st) as [st1 e1] eqn:Sq.
+    destruct (Gb _ _ _ _ I Eb Sq) as [d1 [I1 C1]].
+    destruct e1 as [y|].
+    + inversion H; subst. exists d1. split; assumption.
+    + destruct C1 as [G1 E1].
+      destruct (buffer_flush_spec S sink cap Le _ _ _ _ _ I1 H) as [I2 [E2 _]].
+      exists d1. split; [exact I2|]. rewrite G1. destruct e as [y|].
+      * split; [apply prefix_refl|right; left; symmetry; exact E2].
+      * split; [reflexivity|symmetry; exact E2].
+  - destruct e0 as [x|].
+    + inversion H; subst. exists []. rewrite app_nil_r. split; [exact I|]. split; [apply prefix_refl|left; reflexivity].
+    + eapply write_good; eauto.
+  - refine (good_weaken S cap _ _ (flat_map (fun _ => [])) (fun _ => []) ops _ _ written st st' e I Eb H).
+    + intros y Hy. apply in_flat_map_const in Hy. exact Hy.
+    + apply seq_good. apply Forall_forall. intros o _. apply run_op_good. exact Le.
+  - inversion H; subst. exists []. rewrite app_nil_r. split; [exact I|]. split; [reflexivity|exact Eb].
+  - (* if / else, switch arm, conditional and boolean attribute: model and specification read the same oracle *)
+    assert (T : test benv senv path c = holds benv senv path c) by (destruct c; reflexivity).
+    rewrite T in H. destruct (holds benv senv path c).
+    + destruct (good_list thn IHt S sink sw flusher Le path written st st' e I Eb H) as [d [I1 C]]. exists d. split; [exact I1|].
+      destruct e as [y|]; [|exact C]. destruct C as [P [D|[D|D]]]; (split; [exact P|]); auto.
+      right. right. apply in_or_app. left. exact D.
+    + destruct (good_list els IHe S sink sw flusher Le path written st st' e I Eb H) as [d [I1 C]]. exists d. split; [exact I1|].
+      destruct e as [y|]; [|exact C]. destruct C as [P [D|[D|D]]]; (split; [exact P|]); auto.
+      right. right. apply in_or_app. right. exact D.
+  - (* for: induction over the list of iterations, each iteration a statement list *)
+    refine (good_weaken S cap _ _ (flat_map (fun _ => flat_map host_errs body)) (fun _ => flat_map host_errs body) (seq 0 (cnt path id)) _ _ written st st' e I Eb H).
+    + intros y Hy. apply in_flat_map_const in Hy. exact Hy.
+    + apply (seq_good S cap (fun j => seq_r S node (fun x => run S sink cap sw flusher esc env benv senv cnt cancel x (j :: path)) body)
+                      (fun j => seq_d node (fun x => denoteT x (j :: path)) body)).
+      apply Forall_forall. intros j _. exact (good_list body IHb S sink sw flusher Le (j :: path)).
+  - (* a hand-written component that is passed a block of children *)
+    destruct k as [|limit x ownf|].
+    + (* the block is handed the enclosing render's buffer *)
+      refine (good_weaken S cap _ _ (flat_map (fun _ => flat_map host_errs ch)) (fun _ => flat_map host_errs ch) (seq 0 times) _ _ written st st' e I Eb H).
+      * intros y Hy. apply in_flat_map_const in Hy. cbn [app]. exact Hy.
+      * apply (seq_good S cap (fun _ => seq_r S node (fun x => run S sink cap sw flusher esc env benv senv cnt cancel x path) ch)
+                        (fun _ => seq_d node (fun x => denoteT x path) ch)).
+        apply Forall_forall. intros j _. exact (good_list ch IHb S sink sw flusher Le path).
+    + (* ... a forwarding writer of the component's own: the block takes a pooled buffer, flushes it into that writer, and
+         that writer hands the bytes on to the enclosing render's buffer *)
+      unfold host_fwd in H.
+      match type of H with (let '(_, _) := closure_times ?f ?t ?w0 in _) = _ => destruct (closure_times f t w0) as [r w'] eqn:CT; set (w0' := w0) in * end.
+      inversion H; subst st' e. clear H.
+      pose proof (block_good ch IHb _ (fwd_step S sink cap x) false false (fwd_le S sink cap x) path times w0' r w' eq_refl CT) as WG.
+      assert (NS : no_spin _ w').
+      { refine (block_no_spin cap esc env benv senv cnt cancel cap_pos _ (fwd_step S sink cap x) false false true ch path times
+                  (fwd_le S sink cap x) (fwd_progresses S sink cap x) w0' r w' _ CT). intros []. }
+      assert (LK : LinkH S cap x limit written w').
+      { refine (closure_times_pres _ (LinkH S cap x limit written) _ _ times w0' r w' _ CT).
+        - intros w1 r1 w2 Hw H1.
+          refine (closure_top_pres _ (fwd_step S sink cap x) (LinkH S cap x limit written)
+                    (fun w d p => link_call S sink cap Le x limit written w d p) (link_mark S cap x limit written) false true _ _ w1 r1 w2 Hw H1).
+          intros s1 s2 e1 Q1 H2.
+          refine (pres_list cap esc env benv senv cnt cancel ch _ _ (fwd_step S sink cap x) false false (LinkH S cap x limit written)
+                    (fun w d p => link_call S sink cap Le x limit written w d p) (link_mark S cap x limit written) (link_spin S cap x limit written)
+                    path s1 s2 e1 Q1 H2).
+          apply Forall_forall. intros n _. apply run_pres.
+        - unfold LinkH, w0'. cbn [sst recv log fst snd h_rem h_trip]. rewrite app_nil_r.
+          split; [exact I|split; [intros L; exact L|split; [discriminate|]]]. intros _. cbn [first_refusal]. split; [exact Eb|reflexivity]. }
+      destruct LK as [I' [Lm [Tl Fr]]]. specialize (Fr NS).
+      unfold w0' in WG. cbn [recv app] in WG.
+      set (gH := seq_d nat (fun _ => seq_d node (fun x0 => denoteT x0 path) ch) (seq 0 times)) in *.
+      exists (recv w'). split; [exact I'|].
+      assert (InX : limit <> None -> In (EComp x) (match limit with Some _ => [EComp x] | None => [] end ++ flat_map host_errs ch)).
+      { intros Ln. destruct limit; [left; reflexivity|contradiction]. }
+      destruct (ownf && h_trip (fst (sst w'))) eqn:OT.
+      * (* the component reports its own writer's failure *)
+        apply andb_prop in OT as [_ Tr].
+        assert (PR : prefix (recv w') (fst gH)).
+        { destruct r as [y|]; [exact (proj1 WG)|]. destruct WG as [R _]. rewrite R. apply prefix_refl. }
+        split; [exact PR|]. right. right. apply InX. apply Tl. exact Tr.
+      * destruct r as [y|].
+        -- destruct WG as [PR D]. split; [exact PR|].
+           destruct D as [D|[D|D]]; [left; exact D| |right; right; apply in_or_app; right; exact D].
+           rewrite D in Fr. destruct Fr as [Fr|[Fy [_ Ln]]]; [right; left; exact Fr|].
+           right. right. subst y. apply InX. exact Ln.
+        -- destruct WG as [R [Sn Q]]. rewrite Q in Fr. destruct Fr as [Fr _].
+           split; [|exact Fr]. rewrite R. destruct gH as [d de]. cbn [fst snd] in *. subst de. reflexivity.
+    + (* ... a bytes.Buffer of the component's own, copied once the children have returned nil *)
+      unfold host_capture in H.
+      match type of H with (let '(_, _) := closure_times ?f ?t ?w0 in _) = _ => destruct (closure_times f t w0) as [r w'] eqn:CT; set (w0' := w0) in * end.
+      pose proof (block_good ch IHb _ buffer_sink true false buffer_sink_le path times w0' r w' eq_refl CT) as WG.
+      assert (NS : no_spin _ w').
+      { refine (block_no_spin cap esc env benv senv cnt cancel cap_pos _ buffer_sink true false true ch path times
+                  buffer_sink_le buffer_sink_progresses w0' r w' _ CT). intros []. }
+      assert (CQ : CapQ w').
+      { refine (closure_times_pres _ CapQ _ _ times w0' r w' _ CT).
+        - intros w1 r1 w2 Hw H1.
+          refine (closure_top_pres _ buffer_sink CapQ capq_call (fun w j Hq => Hq) false true _ _ w1 r1 w2 Hw H1).
+          intros s1 s2 e1 Q1 H2.
+          refine (pres_list cap esc env benv senv cnt cancel ch _ _ buffer_sink true false CapQ capq_call (fun w j Hq => Hq) capq_spin
+                    path s1 s2 e1 Q1 H2).
+          apply Forall_forall. intros n _. apply run_pres.
+        - intros _. reflexivity. }
+      specialize (CQ NS).
+      unfold w0' in WG. cbn [recv app] in WG.
+      set (gH := seq_d nat (fun _ => seq_d node (fun x0 => denoteT x0 path) ch) (seq 0 times)) in *.
+      destruct r as [y|].
+      * inversion H; subst st' e. exists []. rewrite app_nil_r. split; [exact I|]. split; [apply prefix_nil|].
+        destruct WG as [_ [D|[D|D]]]; [left; exact D|congruence|right; right; exact D].
+      * destruct WG as [R [Sn _]].
+        destruct (do_write_spec S sink cap Le _ _ _ _ _ _ I H) as [I1 E1].
+        exists (recv w'). split; [exact I1|]. rewrite R. destruct e as [y|].
+        -- split; [apply prefix_refl|right; left; symmetry; exact E1].
+        -- split; [|symmetry; exact E1]. destruct gH as [d de]. cbn [fst snd] in *. subst de. reflexivity.
+Qed.
+End RunGood.
+
+(* ====================================================================================================== *)
+(* the whole of C10 for one render                                                                        *)
+(* ====================================================================================================== *)
+Section SkelP.
+Variable sink_st : Type.
+Variable sink : sink_st -> bytes -> nat * option err * sink_st.
+Variable cap : nat.
+Variable sw : bool.
+Variable flusher : bool.
+Variable esc : bytes -> bytes.
+Variable env : list nat -> N -> bytes * option N.
+Variable benv : list nat -> N -> bool.
+Variable senv : list nat -> N -> nat.
+Variable cnt : list nat -> N -> nat.
+Variable cancel : option N.
+Hypothesis sink_le : forall s p, fst (fst (sink s p)) <= length p.
+Hypothesis cap_pos : 0 < cap.
+
+Notation worldT := (world sink_st).
+Notation rstateT := (rstate sink_st).
+Notation runT := (run sink_st sink cap sw flusher esc env benv senv cnt cancel).
+Notation denoteT := (denote esc env benv senv cnt cancel).
+Notation seq_rT := (seq_r sink_st).
+Notation buffer_flushT := (buffer_flush sink_st sink flusher).
+Notation render_topT := (render_top sink_st sink cap sw flusher esc env benv senv cnt cancel).
+
+Lemma body_good body path :
+  Good sink_st cap (seq_rT node (fun x => runT x path)) (seq_d node (fun x => denoteT x path)) (flat_map host_errs) body.
+Proof.
+  apply (good_list cap esc env benv senv cnt cancel body); [|exact sink_le].
+  apply Forall_forall. intros n _. apply run_good. exact cap_pos.
+Qed.
+
+Theorem render_top_spec pool choice g body (w0 : worldT) res w' pool' :
+  recv w0 = [] -> log w0 = [] ->
+  render_topT true pool choice g body w0 = (res, w', pool') ->
+  spec_ok (fst (denoteT (Templ g body) [])) (snd (denoteT (Templ g body) [])) (host_errs (Templ g body)) res (recv w') (log w').
+Proof.
+  intros R0 L0 H. unfold render_top in H. cbn [host_errs].
+  destruct (if g then cancel else None) as [c|] eqn:G.
+  - (* ctx.Err() != nil: nothing is acquired, nothing is written *)
+    destruct g; [|discriminate]. inversion H; subst res w' pool'. cbn [denote]. rewrite G, R0, L0. cbn [fst snd].
+    unfold spec_ok. cbn [first_refusal]. repeat split; try discriminate; auto using prefix_nil.
+  - assert (D : denoteT (Templ g body) [] = seq_d node (fun x => denoteT x []) body).
+    { cbn [denote]. destruct g; [rewrite G|]; reflexivity. }
+    rewrite D. clear D.
+    destruct (acquire pool choice) as [b0 pool1].
+    destruct (seq_rT node (fun x => runT x []) body {| rb := bw_reset b0; rw := w0 |}) as [st1 e] eqn:S.
+    destruct (buffer_flushT st1) as [st2 fe] eqn:F. inversion H; subst res w' pool'. clear H.
+    assert (I0 : RInv sink_st cap [] {| rb := bw_reset b0; rw := w0 |}).
+    { unfold RInv, Inv. cbn [rb rw bw_reset buf berr]. rewrite R0, L0. split; [|split]; cbn; auto; try lia.
+      exists []. split; reflexivity. }
+    destruct (body_good body [] _ _ _ _ I0 eq_refl S) as [done [I1 C1]]. cbn [app] in I1.
+    destruct (buffer_flush_spec sink_st sink cap sink_le _ _ _ _ _ I1 F) as [I2 [E2 [B2 St]]].
+    destruct (seq_d node (fun x => denoteT x []) body) as [d de] eqn:SD. cbn [fst snd] in *.
+    pose proof (received_is_prefix _ _ _ _ _ I2) as PR.
+    assert (FR : berr (rb st2) = first_refusal (log (rw st2))) by (destruct I2 as [_ [_ X]]; exact X).
+    unfold spec_ok. destruct e as [y|].
+    + destruct C1 as [P1 D1]. repeat split.
+      * eapply prefix_trans; eassumption.
+      * discriminate.
+      * discriminate.
+      * intros x Hx. rewrite <- FR in Hx. destruct D1 as [D1|[D1|D1]].
+        -- right. left. subst de. split; [reflexivity|discriminate].
+        -- left. rewrite (St _ D1) in Hx. congruence.
+        -- right. right. exists y. split; [reflexivity|exact D1].
+      * intros Hn. rewrite <- FR in Hn. destruct D1 as [D1|[D1|D1]].
+        -- left. subst de. reflexivity.
+        -- rewrite (St _ D1) in Hn. discriminate.
+        -- right. exists y. split; [reflexivity|exact D1].
+    + destruct C1 as [G1 E1]. inversion G1; subst d de. repeat split.
+      * exact PR.
+      * subst fe. eapply clean_means_all; [exact I2|exact H|apply B2; exact H].
+      * intros x Hx. left. rewrite <- FR in Hx. congruence.
+      * intros Hn. left. rewrite <- FR in Hn. congruence.
+Qed.
+
+(* a cancelled context: the error is the context's, the destination and the pool are untouched *)
+Theorem cancelled_no_output pool choice body (w0 : worldT) c :
+  cancel = Some c ->
+  render_topT true pool choice true body w0 = (Some (ECtx c), w0, pool).
+Proof. intros C. unfold render_top. rewrite C. reflexivity. Qed.
+
+(* the result does not depend on what the pool holds or hands out *)
+Theorem render_top_pool_irrelevant pool choice g body (w0 : worldT) :
+  fst (render_topT true pool choice g body w0) = fst (render_topT true [] 0 g body w0).
+Proof.
+  unfold render_top. destruct (if g then cancel else None); [reflexivity|].
+  destruct (acquire pool choice) as [b0 p1]. destruct (acquire [] 0) as [b00 p0].
+  unfold bw_reset.
+  destruct (seq_rT node (fun x => runT x []) body {| rb := {| buf := []; berr := None |}; rw := w0 |}) as [st1 e].
+  destruct (buffer_flushT st1) as [st2 fe]. reflexivity.
 Qed.
 End SkelP.
 
@@ -488,6 +1194,22 @@ Lemma spin_witness :
     = [(Some ESpin, [])].
 Proof. vm_compute. reflexivity. Qed.
 
+(* ---------- what the block's own release is for ---------- *)
+(* a block { abc } handed a forwarding writer of a hand-written component, buffer size 4, destination that never fails *)
+Definition block_body (S : Type) (sink : S -> bytes -> nat * option err * S) (st : rstate S) : rstate S * option err :=
+  do_write S sink 4 false st (bs "abc").
+Definition block_view (own : bool) : option err * bytes * bytes :=
+  let w0 := {| sst := {| f_mode := 0%N; f_limit := 0; f_tripped := false; f_err := 0%N |}; recv := []; log := []; marks := [] |} in
+  let '(st1, e) := host_fwd fsink fsink_step 4 own None 1%N false 1 (block_body _ (fwd_step fsink fsink_step 4 1%N))
+                     {| rb := bw_fresh; rw := w0 |} in
+  let '(st2, fe) := buffer_flush fsink fsink_step false st1 in
+  (match e with Some x => Some x | None => fe end, recv (rw st2), buf (rb st2)).
+(* with the release the destination gets the block's output; without it the component's writer is never called,
+   Render returns nil and the output is lost *)
+Lemma block_without_own_release :
+  block_view true = (None, bs "abc", []) /\ block_view false = (None, [], []).
+Proof. split; vm_compute; reflexivity. Qed.
+
 (* ---------- the sentences of C10, read off [render_top_spec] ---------- *)
 Lemma seq_d_fail_at {A} (g : A -> bytes * option err) pre x post y :
   snd (seq_d A g pre) = None -> g x = ([], Some y) ->
@@ -513,46 +1235,54 @@ Variable senv : list nat -> N -> nat.
 Variable cnt : list nat -> N -> nat.
 Variable cancel : option N.
 Hypothesis sink_le : forall s p, fst (fst (sink s p)) <= length p.
+Hypothesis cap_pos : 0 < cap.
 Notation render_topT := (render_top sink_st sink cap sw flusher esc env benv senv cnt cancel).
 Notation denoteT := (denote esc env benv senv cnt cancel).
 Notation worldT := (world sink_st).
+Notation specT := (render_top_spec sink_st sink cap sw flusher esc env benv senv cnt cancel sink_le cap_pos).
 
 Theorem nil_means_all pool choice g body (w0 : worldT) w' pool' :
   recv w0 = [] -> log w0 = [] ->
   render_topT true pool choice g body w0 = (None, w', pool') ->
   recv w' = fst (denoteT (Templ g body) []) /\ snd (denoteT (Templ g body) []) = None.
 Proof.
-  intros R0 L0 H. destruct (render_top_spec sink_st sink cap sw flusher esc env benv senv cnt cancel sink_le _ _ _ _ _ _ _ _ R0 L0 H) as [_ [X _]].
+  intros R0 L0 H. destruct (specT _ _ _ _ _ _ _ _ R0 L0 H) as [_ [X _]].
   apply X. reflexivity.
 Qed.
 
+(* hs: the errors of the limited writers of the program's hand-written components; [] if it has none *)
 Theorem fail_stop pool choice g body (w0 : worldT) res w' pool' :
   recv w0 = [] -> log w0 = [] ->
   render_topT true pool choice g body w0 = (res, w', pool') ->
   prefix (recv w') (fst (denoteT (Templ g body) [])) /\
   (forall x, first_refusal (log w') = Some x ->
      res <> None /\
-     (res = Some x \/ (res = snd (denoteT (Templ g body) []) /\ snd (denoteT (Templ g body) []) <> None)) /\
-     (snd (denoteT (Templ g body) []) = None -> res = Some x)).
+     (res = Some x \/ (res = snd (denoteT (Templ g body) []) /\ snd (denoteT (Templ g body) []) <> None) \/
+      (exists y, res = Some y /\ In y (host_errs (Templ g body)))) /\
+     (snd (denoteT (Templ g body) []) = None -> host_errs (Templ g body) = [] -> res = Some x)).
 Proof.
-  intros R0 L0 H. destruct (render_top_spec sink_st sink cap sw flusher esc env benv senv cnt cancel sink_le _ _ _ _ _ _ _ _ R0 L0 H) as [P [_ [X _]]].
-  split; [exact P|]. intros x Hx. destruct (X x Hx) as [E|[E1 E2]].
-  - split; [rewrite E; discriminate|]. split; [left; exact E|intros _; exact E].
-  - split; [rewrite E1; exact E2|]. split; [right; split; assumption|intros D; contradiction].
+  intros R0 L0 H. destruct (specT _ _ _ _ _ _ _ _ R0 L0 H) as [P [_ [X _]]].
+  split; [exact P|]. intros x Hx. destruct (X x Hx) as [E|[[E1 E2]|[y [E1 E2]]]].
+  - split; [rewrite E; discriminate|]. split; [left; exact E|intros _ _; exact E].
+  - split; [rewrite E1; exact E2|]. split; [right; left; split; assumption|intros D; contradiction].
+  - split; [rewrite E1; discriminate|]. split; [right; right; exists y; split; assumption|].
+    intros _ Hn. rewrite Hn in E2. contradiction.
 Qed.
 
-(* the program's own first failure is what Render returns when the destination never refuses *)
+(* the program's own first failure is what Render returns when the destination never refuses (or the error of one of
+   the limited writers of its hand-written components, if it has any) *)
 Theorem program_error_returned pool choice g body (w0 : worldT) res w' pool' y :
   recv w0 = [] -> log w0 = [] ->
   render_topT true pool choice g body w0 = (res, w', pool') ->
   snd (denoteT (Templ g body) []) = Some y ->
-  (first_refusal (log w') = None -> res = Some y) /\
-  (forall x, first_refusal (log w') = Some x -> res = Some y \/ res = Some x) /\
+  (first_refusal (log w') = None -> res = Some y \/ (exists z, res = Some z /\ In z (host_errs (Templ g body)))) /\
+  (forall x, first_refusal (log w') = Some x ->
+     res = Some y \/ res = Some x \/ (exists z, res = Some z /\ In z (host_errs (Templ g body)))) /\
   prefix (recv w') (fst (denoteT (Templ g body) [])).
 Proof.
-  intros R0 L0 H D. destruct (render_top_spec sink_st sink cap sw flusher esc env benv senv cnt cancel sink_le _ _ _ _ _ _ _ _ R0 L0 H) as [P [_ [X Y]]].
-  split; [intros Nr; rewrite (Y Nr); exact D|]. split; [|exact P].
-  intros x Hx. destruct (X x Hx) as [E|[E1 _]]; [right; exact E|left; rewrite E1; exact D].
+  intros R0 L0 H D. destruct (specT _ _ _ _ _ _ _ _ R0 L0 H) as [P [_ [X Y]]].
+  split; [intros Nr; destruct (Y Nr) as [E|E]; [left; rewrite E; exact D|right; exact E]|]. split; [|exact P].
+  intros x Hx. destruct (X x Hx) as [E|[[E1 _]|E]]; [right; left; exact E|left; rewrite E1; exact D|right; right; exact E].
 Qed.
 
 Theorem expr_error_position pool choice (g : bool) pre id file line col post v x (w0 : worldT) res w' pool' :
@@ -562,8 +1292,12 @@ Theorem expr_error_position pool choice (g : bool) pre id file line col post v x
   env [] id = (v, Some x) ->                              (* the expression returns an error *)
   render_topT true pool choice g (pre ++ Expr id file line col :: post) w0 = (res, w', pool') ->
   prefix (recv w') (fst (seq_d node (fun n => denoteT n []) pre)) /\
-  (first_refusal (log w') = None -> res = Some (ETempl file line col (EExpr x))) /\
-  (forall z, first_refusal (log w') = Some z -> res = Some (ETempl file line col (EExpr x)) \/ res = Some z).
+  (first_refusal (log w') = None ->
+     res = Some (ETempl file line col (EExpr x)) \/
+     (exists z, res = Some z /\ In z (host_errs (Templ g (pre ++ Expr id file line col :: post))))) /\
+  (forall z, first_refusal (log w') = Some z ->
+     res = Some (ETempl file line col (EExpr x)) \/ res = Some z \/
+     (exists z', res = Some z' /\ In z' (host_errs (Templ g (pre ++ Expr id file line col :: post))))).
 Proof.
   intros R0 L0 G Hp He H.
   assert (D : denoteT (Templ g (pre ++ Expr id file line col :: post)) [] =
@@ -574,3 +1308,44 @@ Proof.
   rewrite D in C. cbn [fst] in C. split; [exact C|]. split; assumption.
 Qed.
 End Sentences.
+
+(* ---------- statements in the argument order props/C10.v uses ---------- *)
+Theorem no_spin_under_contract :
+  forall (sink_st : Type) (sink : sink_st -> bytes -> nat * option err * sink_st) (cap : nat) (sw flusher : bool)
+         (esc : bytes -> bytes) (env : list nat -> N -> bytes * option N) (benv : list nat -> N -> bool)
+         (senv cnt : list nat -> N -> nat) (cancel : option N),
+  (forall s p, fst (fst (sink s p)) <= length p) ->
+  (forall s p n s', p <> [] -> sink s p = (n, None, s') -> 0 < n) ->
+  0 < cap ->
+  forall pool choice g body (w0 : world sink_st) res w' pool',
+  log w0 = [] ->
+  render_top sink_st sink cap sw flusher esc env benv senv cnt cancel true pool choice g body w0 = (res, w', pool') ->
+  ~ In LSpin (log w').
+Proof.
+  intros sink_st sink cap sw flusher esc env benv senv cnt cancel Le Pr Cp.
+  exact (render_top_no_spin cap esc env benv senv cnt cancel Cp sink_st sink sw flusher Le Pr).
+Qed.
+
+(* a block of children rendered `times` times on ANY writer w that is not the enclosing render's buffer (each time through
+   a pooled buffer of the block's own, flushed and released when the block returns): if the last render returns nil, w has
+   received exactly the block's output that many times and has never refused; otherwise w has received a prefix of it and
+   the error is the block's own failure, w's first refusal, or the error of a limited writer inside the block *)
+Theorem block_meets_spec :
+  forall (sink_st : Type) (sink : sink_st -> bytes -> nat * option err * sink_st) (cap : nat) (sw flusher : bool)
+         (esc : bytes -> bytes) (env : list nat -> N -> bytes * option N) (benv : list nat -> N -> bool)
+         (senv cnt : list nat -> N -> nat) (cancel : option N),
+  (forall s p, fst (fst (sink s p)) <= length p) -> 0 < cap ->
+  forall ch path times (w : world sink_st) r w',
+  first_refusal (log w) = None ->
+  closure_times (closure_top sink_st sink flusher true
+                   (seq_r sink_st node (fun c => run sink_st sink cap sw flusher esc env benv senv cnt cancel c path) ch)) times w = (r, w') ->
+  let g := denote esc env benv senv cnt cancel (Host HPass times ch) path in
+  match r with
+  | None => recv w' = recv w ++ fst g /\ snd g = None /\ first_refusal (log w') = None
+  | Some y => prefix (recv w') (recv w ++ fst g) /\ (snd g = Some y \/ first_refusal (log w') = Some y \/ In y (flat_map host_errs ch))
+  end.
+Proof.
+  intros sink_st sink cap sw flusher esc env benv senv cnt cancel Le Cp ch path times w r w' Q H.
+  refine (block_good cap esc env benv senv cnt cancel ch _ sink_st sink sw flusher Le path times w r w' Q H).
+  apply Forall_forall. intros n _. apply run_good. exact Cp.
+Qed.
